@@ -204,11 +204,15 @@ class RequestManager(BaseModel):
 
         request_type = self.request_types[request_key]
 
+        # the permission rule of every level applies, exactly as in __call__
+        if not request_type.validator(request_options, context):
+            return False
+
         # recurse if we are not at a leaf node
         if isinstance(request_type.func, RequestManager):
             return request_type.func.check_valid(request_options, context)
 
-        return request_type.validator(request_options, context)
+        return True
 
 
 class SimComponent(BaseModel):
